@@ -6,8 +6,8 @@ import (
 	"io"
 
 	"github.com/tink-crypto/tink-go/v2/keyset"
-	"github.com/tink-crypto/tink-go/v2/tink"
 	tinkpb "github.com/tink-crypto/tink-go/v2/proto/tink_go_proto"
+	"github.com/tink-crypto/tink-go/v2/tink"
 )
 
 // ============ tink model (Dolev-Yao blobs; DESIGN §4.2) ============
@@ -140,4 +140,3 @@ func verifStubBufWrite(b *bytes.Buffer, p []byte) (int, error) {
 }
 
 func verifStubBufBytes(b *bytes.Buffer) []byte { return verifBufs[b] }
-
